@@ -39,6 +39,23 @@ impl V {
     pub fn one() -> (r: V) ensures r == V(1) { V(1) }
 }
 pub struct PreprocessedColumns { pub ext_reads: Vec<u32> }
+#[derive(PartialEq, Eq, Structural, Clone, Copy)]
+pub struct NpoTypeId(pub u32);
+/// HashMap<NpoTypeId, Vec<bool>> (duplicate-creator flags per op type), by view
+pub struct DupMap { pub m: Ghost<Map<NpoTypeId, Seq<bool>>> }
+impl DupMap { #[verifier::external_body] pub fn get(&self, k: &NpoTypeId) -> (r: Option<&Vec<bool>>)
+    ensures (r matches Some(v) ==> self.m@.dom().contains(*k) && v@ == self.m@[*k]) && (r is None ==> !self.m@.dom().contains(*k)) { unimplemented!() } }
+/// HashSet<u32> of hinted output slots, by view
+pub struct WidSet { pub s: Ghost<Set<u32>> }
+impl WidSet { #[verifier::external_body] pub fn contains(&self, k: &u32) -> (r: bool) ensures r == self.s@.contains(*k) { unimplemented!() } }
+/// the fields of PreprocessedColumns the recompose preprocessor reads
+pub struct PrepView { pub ext_reads: Vec<u32>, pub dup_npo_outputs: DupMap, pub hint_output_wids: WidSet }
+pub open spec fn coef_ok(new: Seq<V>, old: Seq<V>, er: Seq<u32>, hints: Set<u32>, rs: int, i: int, d: int) -> bool {
+    let cw = (old[rs + 2 + i * 2].0 as usize / (d as usize)) as int;
+    new[rs + 2 + i * 2 + 1] == vfrom(if hints.contains(cw as usize as u32) { reads_of(er, cw) } else { 0 })
+}
+pub open spec fn dup_at(m: Map<NpoTypeId, Seq<bool>>, op: NpoTypeId, w: int) -> bool { m.dom().contains(op) && 0 <= w < m[op].len() && m[op][w] }
+
 
 /// new_start of the row that FOLLOWS row r in the padded trace
 pub open spec fn sp_next_new_start(prep: Seq<V>, w: int, tail: int, n: int, pad: bool, r: int) -> V {
@@ -62,12 +79,13 @@ pub open spec fn new_ctl(old_ctl: V, idx: V, er: Seq<u32>, dup: Option<Seq<bool>
 
 def unand_then_get_unwrap_or(f):
     """R6: `OPT.and_then(|d| d.get(I).copied()).unwrap_or(DFLT)` -> `(match OPT { Some(d) => if I < d.len() { d[I] } else { DFLT }, None => DFLT })`"""
-    f.rewrite_re('R6', r'(\w+)\s*\.and_then\(\|(\w+)\| \2\.get\(([^()]+)\)\.copied\(\)\)\s*\.unwrap_or\(([^()]+)\)',
+    f.rewrite_re('R6', r'((?:\w+\s*\.\s*)*\w+(?:\([^()]*\))?)\s*\.and_then\(\|(\w+)\| \2\.get\(([^()]+)\)\.copied\(\)\)\s*\.unwrap_or\(([^()]+)\)',
                  r'(match \1 { Some(\2) => if \3 < \2.len() { \2[\3] } else { \4 }, None => \4 })', min_count=0)
     return f
 
 
 def common(f):
+    f.rewrite_re('R11', r'\bF::ZERO - F::ONE\b', 'V::neg_one()', min_count=0)
     f.rewrite_re('R11', r'\bF::ONE\b', 'V::one()', min_count=0)
     f.rewrite_re('R11', r'\bF::ZERO\b', 'V::zero()', min_count=0)
     f.rewrite_re('R11', r'\bF::as_canonical_u64\(', 'V::as_canonical_u64(', min_count=0)
@@ -121,9 +139,46 @@ def build():
             assert(prep_base@ =~= old(prep_base)@.update({OFF} as int, new_ctl(old(prep_base)@[{OFF} as int], old(prep_base)@[{O0} as int], preprocessed.ext_reads@,
                     match dup_wids {{ Some(dv) => Some(dv@), None => None }}, D as int, neg_one))); // @@A:out_ctl_follows_the_slots_own_role
         }}''')
+
+    # ------------------------------------------------------------------ recompose_preprocess_for_op[row]
+    R = 'circuit-prover/src/batch_stark_prover/recompose.rs'
+    c = common(u.extract(R, '', 'recompose_preprocess_for_op', 'recompose_preprocess_for_op[row]'))
+    slice_loop_body(c, r'for row_idx in 0\.\.num_rows \{', 'lookup of the op type\'s rows, base conversion, width check; the final insert')
+    c.set_sig('R11', 'fn recompose_preprocess_for_op<const D: usize>(prep: &PrepView, op_type: &NpoTypeId, coeff_lookups: bool, prep_base: &mut Vec<V>, row_idx: usize, prep_width: usize, neg_one: V)', sliced=True)
+    unand_then_get_unwrap_or(c)
+    unget_copied_unwrap_or(c)
+    c.attr('#[verifier::loop_isolation(false)]')
+    c.requires('layout', '''D > 0 && D < 16 && prep_width == (if coeff_lookups { 2 + 2 * D } else { 2 }) && row_idx < 0x1_0000_0000 && (row_idx + 1) * prep_width <= old(prep_base)@.len() && old(prep_base)@.len() < 0x1_0000_0000_0000''')
+    DUP = 'prep.dup_npo_outputs.m@'
+    c.ensures('output_multiplicity_follows_the_output_slots_own_role', '''({ let rs = row_idx * prep_width; let w = (old(prep_base)@[rs].0 as usize / D) as int;
+            final(prep_base)@[rs + 1] == (if dup_at(prep.dup_npo_outputs.m@, *op_type, w) { neg_one } else { vfrom(reads_of(prep.ext_reads@, w)) }) })''')
+    c.ensures('coefficient_multiplicities_count_reads_of_hinted_coefficients_only', '''coeff_lookups ==> forall|i: int| 0 <= i < D ==>
+            #[trigger] coef_ok(final(prep_base)@, old(prep_base)@, prep.ext_reads@, prep.hint_output_wids.s@, row_idx * prep_width, i, D as int)''')
+    c.ensures('index_columns_and_other_rows_untouched', '''final(prep_base)@.len() == old(prep_base)@.len() && forall|q: int| 0 <= q < old(prep_base)@.len() && !(row_idx * prep_width < q < (row_idx + 1) * prep_width && (q - row_idx * prep_width) % 2 == 1)
+            ==> #[trigger] final(prep_base)@[q] == old(prep_base)@[q]''')
+    c.at_start('''proof { vstd::arithmetic::mul::lemma_mul_is_distributive_add_other_way(prep_width as int, row_idx as int, 1); vstd::arithmetic::mul::lemma_mul_nonnegative(row_idx as int, prep_width as int); assert((row_idx + 1) * prep_width == row_idx * prep_width + prep_width); assert(prep_width >= 2); assert(row_idx * prep_width + prep_width <= prep_base@.len()); assert(row_idx * prep_width <= usize::MAX); }''')
+    if 'for i in 0..D' in c.body:
+        c.before('for i in 0..D', 'let ghost pb1 = prep_base@; proof { assert forall|q: int| 0 <= q < pb1.len() && q != row_start + 1 implies #[trigger] pb1[q] == old(prep_base)@[q] by {} }')
+        c.at_loop_end('for i in 0..D', '''proof {
+                    let pos = row_start + 2 + i * 2 + 1;
+                    assert(pb_i[row_start + 2 + i * 2] == pb1[row_start + 2 + i * 2]);
+                    assert(pb1[row_start + 2 + i * 2] == old(prep_base)@[row_start + 2 + i * 2]);
+                    assert forall|q: int| 0 <= q < prep_base@.len() && !(row_start + 2 <= q < row_start + 2 + 2 * (i + 1) && (q - row_start) % 2 == 1) implies #[trigger] prep_base@[q] == pb1[q] by { assert(q != pos); assert(prep_base@[q] == pb_i[q]); }
+                    assert forall|t: int| 0 <= t < i + 1 implies #[trigger] coef_ok(prep_base@, old(prep_base)@, prep.ext_reads@, prep.hint_output_wids.s@, row_start as int, t, D as int) by {
+                        if t < i { assert(coef_ok(pb_i, old(prep_base)@, prep.ext_reads@, prep.hint_output_wids.s@, row_start as int, t, D as int)); assert(row_start + 2 + t * 2 + 1 != pos); assert(prep_base@[row_start + 2 + t * 2 + 1] == pb_i[row_start + 2 + t * 2 + 1]); }
+                    }
+                }''')
+        lo = c._loop_open('for i in 0..D')
+        c.body = c.body[:lo + 1] + ' let ghost pb_i = prep_base@; ' + c.body[lo + 1:]
+        c.loop('for i in 0..D', invariants=[
+            ('coefficients_done', '''prep_base@.len() == old(prep_base)@.len() && row_start == row_idx * prep_width
+                && (forall|q: int| 0 <= q < prep_base@.len() && !(row_start + 2 <= q < row_start + 2 + 2 * i && (q - row_start) % 2 == 1) ==> #[trigger] prep_base@[q] == pb1[q])
+                && (forall|t: int| 0 <= t < i ==> #[trigger] coef_ok(prep_base@, old(prep_base)@, prep.ext_reads@, prep.hint_output_wids.s@, row_start as int, t, D as int))''')])
     u.text('verus! { mod mmcs_read_row { use super::*;')
     u.emit(a, vis='')
     u.text('} mod out_ctl_slot { use super::*;')
     u.emit(b, vis='')
+    u.text('} mod recompose_row { use super::*;')
+    u.emit(c, vis='')
     u.text('} }')
     return u
